@@ -469,6 +469,7 @@ def glue_contextlib() -> None:
     def elaborate_exit_stack(stack: Any, context: Context) -> None:
         stackname = context.varname or "_"
         children = []
+        errors: List[Exception] = []
         # List of (is_sync, callback) tuples, from outermost to innermost, where
         # each callback takes parameters following the signature of a __exit__ method
         callbacks: List[Tuple[bool, Callable[..., Any]]] = list(stack._exit_callbacks)
@@ -532,11 +533,22 @@ def glue_contextlib() -> None:
                 varname=f"{stackname}[{idx}]",
                 start_line=context.start_line,
             )
-            _extract.fill_context(child_context)
+            try:
+                _extract.fill_context(child_context)
+            except Exception as ex:
+                # Keep going, so that one entry's failure doesn't cost us
+                # the other entries (and any errors recorded on them)
+                errors.append(ex)
             child_context.description = f"{tag}{stackname}.{method}({child_context.description or arg or '...'})"
             children.append(child_context)
 
         context.children = children
+        if len(errors) > 1:
+            raise ExceptionGroup(
+                "multiple errors encountered while extracting stack", errors
+            )
+        if errors:
+            raise errors[0]
 
 
 @builtin_glue("threading")
